@@ -95,7 +95,9 @@ Section SessionProofs.
     - intros H; inversion H; subst. unfold matches; simpl. repeat split; auto.
     - discriminate.
     - intros H; inversion H; subst. unfold matches; simpl. repeat split; auto.
-    - unfold ucmm_local. destruct (accept cfg rp).
+    - destruct (unroutable (s_store s) rq).
+      { intros H; inversion H; subst. unfold matches; simpl. repeat split; auto. right. split; [discriminate | reflexivity]. }
+      unfold ucmm_local. destruct (accept cfg rp).
       + destruct (exec fixed maxb (s_store s) rq) as [st' rep] eqn:Ex.
         destruct (produce rep) as [bs|] eqn:Ep; intros H; inversion H; subst; unfold matches; simpl; repeat split; auto.
         * left. split; [reflexivity|]. exists bs. split; [reflexivity|].
@@ -110,6 +112,7 @@ Section SessionProofs.
   Lemma respond_wf s q : wf_store (s_store s) -> sreq_ok q -> wf_store (s_store (fst (fst (respond s q)))).
   Proof.
     intros Hwf Hok. destruct q as [e|e|c e|e rp rq]; simpl; auto.
+    destruct (unroutable (s_store s) rq); [exact Hwf|].
     unfold ucmm_local. destruct (accept cfg rp); [|exact Hwf].
     pose proof (exec_wf fixed maxb (s_store s) rq Hwf Hok) as H.
     destruct (exec fixed maxb (s_store s) rq) as [st' rep]. destruct (produce rep); exact H.
@@ -138,6 +141,7 @@ Section SessionProofs.
       + simpl. eapply AlLast; eauto. exact (respond_matches _ _ _ _ _ Hwf Er).
     - assert (go = false) as ->.
       { destruct q as [e|e|c e|e rp rq]; simpl in Er; try (inversion Er; reflexivity).
+        destruct (unroutable (s_store s) rq); [inversion Er|].
         destruct (ucmm_local cfg maxb (s_store s) rp rq) as [st' [code|[bs|]]]; inversion Er. }
       simpl. eapply AlEnd; eauto.
   Qed.
@@ -159,6 +163,28 @@ Section SessionProofs.
     specialize (IH s1 Hrest). destruct (srun s1 t) as [rest s2]. simpl in *.
     destruct rep as [r|]; simpl; [lia|].
     exfalso. destruct q as [e|e|c e|e rp rq]; simpl in Er; try discriminate.
+    destruct (unroutable (s_store s) rq); [inversion Er|].
     destruct (ucmm_local cfg maxb (s_store s) rp rq) as [st' [code|[bs|]]]; inversion Er.
+  Qed.
+  (* a single request that names no existing Object: exactly one frame, status 8, no payload, the request's own session handle /
+     context / options; nothing changes and nothing after it is answered - whatever the route path and the personality *)
+  Lemma unroutable_reply s e rp r t :
+    unroutable (s_store s) r = true ->
+    srun s (QSend e rp r :: t) = ([Rep 111 (e_sess e) 8 (e_ctx e) (e_opts e) BNone], s).
+  Proof. intros H. cbn [Model.Session.srun Model.Session.respond]. simpl q_env. rewrite H. reflexivity. Qed.
+
+  (* ... and only such a request, or the route filter, ends a session on a SendRRData: a dispatched request on an accepted route is
+     answered with status 0 or, when its reply cannot be rendered, status 8 *)
+  Lemma routable_accepted s e rp r :
+    unroutable (s_store s) r = false -> accept cfg rp = true ->
+    respond s (QSend e rp r) =
+      (let (st', rep) := exec fixed maxb (s_store s) r in
+       match produce rep with
+       | Some bs => (SS st' (s_nreg s), Some (Rep 111 (e_sess e) 0 (e_ctx e) (e_opts e) (BCip bs)), true)
+       | None => (SS st' (s_nreg s), Some (Rep 111 (e_sess e) 8 (e_ctx e) (e_opts e) BNone), false)
+       end).
+  Proof.
+    intros Hu Ha. cbn [Model.Session.respond]. simpl q_env. rewrite Hu. unfold ucmm_local. rewrite Ha.
+    destruct (exec fixed maxb (s_store s) r) as [st' rep]. destruct (produce rep); reflexivity.
   Qed.
 End SessionProofs.
